@@ -141,6 +141,7 @@ partial def parseE : Sexp → Option E
   | .list [.atom "forg", x, g, .list (.atom "args" :: es), b] => do
     pure (.forGen (← x.nat?) (← g.nat?) (← parseEs es) (← parseE b))
   | .list [.atom "brk"] => some .brk
+  | .list [.atom "brkv", e] => do pure (.brkV (← parseE e))
   | .list [.atom "cont"] => some .cont
   | .list [.atom "ret", e] => do pure (.ret (← parseE e))
   | .list [.atom "try", b, .list (.atom "catches" :: cs)] => do
